@@ -186,7 +186,7 @@ def estimator_sampling(vc, cfg):
     from pyvc import loader
 
     if not vc.symbolic:
-        return
+        return _estimator_native(vc, cfg)
     nf, ns = 3, 2
     est = ReceptorEstimator.__new__(ReceptorEstimator)
     est.filters = vc.array("F", (nf, 2))
@@ -233,6 +233,31 @@ def estimator_sampling(vc, cfg):
             vc.prove("l1: the zero-intensity gamut point is removed before the chromatic reduction", vc.eq_arr(seen["dimred"], Pg), detail=str(np.asarray(seen["dimred"]).shape))
 
 
+def _estimator_native(vc, cfg):
+    """BOUNDED native stand-in on a real estimator (3 receptors, 4 sources, 6 domain points, finite bounds): the property's clauses for
+    the wrapper -- requested number of samples, every sample in the gamut (the estimator's own membership test), requested total."""
+    from dreye.api.estimator import ReceptorEstimator
+
+    nf, ns, nd, n = 3, 4, 6, 200
+    sc = lambda a, lo, hi: lo + (hi - lo) * (np.asarray(a) - 0.1) / 1.9  # the default generator draws U(0.1, 2)
+    F, S, ub = sc(vc.array("F", (nf, nd)), 0.1, 1.0), sc(vc.array("S", (ns, nd)), 0.1, 1.0), sc(vc.array("ub", (ns,)), 1.0, 2.0)
+    est = ReceptorEstimator(F, domain=1.0, sources=S, lb=np.zeros(ns), ub=ub)
+    o = vc.call(est.sample_in_hull, n, seed=3)
+    if vc.returns("terminates-normally", o):
+        X = np.asarray(o.value)
+        vc.prove("requested number of capture vectors", X.shape == (n, nf), detail=str(X.shape))
+        vc.prove("every sample lies in the gamut", bool(est.in_hull(X).all()), detail=f"{int((~est.in_hull(X)).sum())} of {n} outside")
+    P = est._get_P_from_A(relative=True, bounded=True)
+    L = 0.5 * float(P.sum(1).max())  # half of the largest total capture the system can produce
+    o = vc.call(est.sample_in_hull, n, seed=3, l1=L)
+    if vc.returns("l1-terminates", o):
+        X = np.asarray(o.value)
+        vc.prove("l1: requested number of capture vectors", X.shape == (n, nf), detail=str(X.shape))
+        vc.prove("l1: every sample has the requested total", bool(np.allclose(X.sum(1), L, rtol=1e-9)))
+        inside = est.in_hull(X)
+        vc.prove("l1: every sample lies in the gamut", bool(inside.all()), detail=f"{int((~inside).sum())} of {n} samples with total {L:.3f} (half the largest reachable total) are outside the gamut")
+
+
 def _cfgs(tier):
     out = []
     for shape, n, engine in (("tri", 2, None), ("quad", 2, None), ("quad-interior-first", 2, None), ("quad", 2, "Halton"), ("tri", 3, "Sobol")):
@@ -242,8 +267,15 @@ def _cfgs(tier):
     return out
 
 
+import json as _json
+import os as _os
+
+with open(_os.path.join(_os.path.dirname(__file__), "c13_pinned.json")) as _f:
+    _PINNED = _json.load(_f)
+
 CONTRACTS = [
     Contract(P, "sample_in_hull.membership", sample_post, _cfgs, ["dreye.api.sampling.sample_in_hull"], gens=GENS, native_samples=2, timeout_s=40, max_paths=3000, doc=sample_post.__doc__),
     Contract(P, "sample_in_hull.sampler-parameters", volumes_and_weights, lambda t: [dict(shape="quad"), dict(shape="quad-interior-first")] + ([dict(shape="tet2")] if t != "quick" else []), ["dreye.api.sampling.sample_in_hull"], native_samples=0, doc=volumes_and_weights.__doc__),
-    Contract(P, "estimator.sample_in_hull", estimator_sampling, lambda t: [{}], ["dreye.api.estimator.ReceptorEstimator.sample_in_hull"], native_samples=0, doc=estimator_sampling.__doc__),
+    Contract(P, "estimator.sample_in_hull", estimator_sampling, lambda t: [{}], ["dreye.api.estimator.ReceptorEstimator.sample_in_hull"], native_samples=2, doc=estimator_sampling.__doc__ + " | native phase: " + _estimator_native.__doc__,
+             pinned=[({"pinned": "l1-outside-gamut"}, _PINNED)]),  # known finding C13-l1-samples-outside-gamut, reproduced deterministically
 ]
